@@ -43,6 +43,17 @@ def eq(a, b):
     return abs(a - b) <= REL_TOL * max(abs(a), abs(b)) + ABS_TOL
 
 
+def eq_scaled(a, b, *scale):
+    """equality of two results of an expression with cancellation: exact over the reals (symbolic mode); in the native
+    replay the tolerance is relative to the largest magnitude that entered the computation, not to the (small) result"""
+    if _symbolic(a, b):
+        return _t(a) == _t(b)
+    a = float(a)
+    b = float(b)
+    m = max([abs(a), abs(b)] + [abs(float(x)) for x in scale])
+    return abs(a - b) <= REL_TOL * m + ABS_TOL
+
+
 def ne(a, b):
     r = eq(a, b)
     return z3.Not(r) if isinstance(r, z3.ExprRef) else not r
